@@ -248,6 +248,12 @@ class DetectReadsWritesCalls( DetectVarNames ):
     # comprehension variables, annotated and augmented assignments.
     local = { x.id for x in ast.walk( node )
               if isinstance( x, ast.Name ) and isinstance( x.ctx, ast.Store ) }
+    # ... and names bound without a Name node: parameters of a lambda or a
+    # nested function, except ... as name, import ... as name
+    for x in ast.walk( node ):
+      if   isinstance( x, ast.arg ):            local.add( x.arg )
+      elif isinstance( x, ast.ExceptHandler ):  local.add( x.name )
+      elif isinstance( x, ast.alias ):          local.add( x.asname or x.name.split('.')[0] )
     if local:
       self.globals = { k for k in self.globals if k not in local }
 
@@ -345,6 +351,10 @@ def extract_reads_writes_calls( hostobj, f, tree, read, write, calls ):
   assert isinstance(tree, ast.FunctionDef)
 
   visitor = DetectReadsWritesCalls( f, hostobj )
+  # The parameters of the function are local to it as well
+  params = { x.arg for x in ast.walk( tree.args ) if isinstance( x, ast.arg ) }
+  if params:
+    visitor.globals = { k for k in visitor.globals if k not in params }
   for stmt in tree.body:
     visitor.enter( stmt, read, write, calls )
 
